@@ -93,6 +93,36 @@ func byteStr(c byte) string {
 	return string([]byte{c})
 }
 
+// A panic of a kernel on valid input is reported as an answer (-99,-99) that no specification admits.
+const panicked = -99
+
+func callLCS(sa, sb *obiseq.BioSequence, e int, buf *[]uint64) (s, l int) {
+	defer func() {
+		if r := recover(); r != nil {
+			s, l = panicked, panicked
+		}
+	}()
+	return obialign.FastLCSScore(sa, sb, e, buf)
+}
+
+func callEGF(sa, sb *obiseq.BioSequence, e int, buf *[]uint64) (s, l, end int) {
+	defer func() {
+		if r := recover(); r != nil {
+			s, l, end = panicked, panicked, panicked
+		}
+	}()
+	return obialign.FastLCSEGFScore(sa, sb, e, buf)
+}
+
+func callD1(sa, sb *obiseq.BioSequence) (d, pos int, x, y byte) {
+	defer func() {
+		if r := recover(); r != nil {
+			d, pos, x, y = panicked, panicked, 0, 0
+		}
+	}()
+	return obialign.D1Or0(sa, sb)
+}
+
 const (
 	bufFresh = iota
 	bufReused
@@ -135,6 +165,8 @@ type c09Counters struct {
 	n       int64
 }
 
+// ok counts one comparison of an answer of the real code with the exported expectation (the class
+// counters say what was exercised; disagreements are reported separately through fail)
 func (c *c09Counters) ok(class string) {
 	c.classes[class]++
 	c.n++
@@ -232,40 +264,36 @@ func replayOneC09(env *Env, lim *failLimiter, cnt *c09Counters, sc *scratch, c *
 		var badDetail, badEDetail, badSymDetail, badSymEDetail string
 		for mode := bufFresh; mode <= bufPoisoned; mode++ {
 			// ---- global kernel, both argument orders
-			s, l := obialign.FastLCSScore(sa, sb, e, sc.get(mode))
-			s2, l2 := obialign.FastLCSScore(sb, sa, e, sc.get(mode))
+			s, l := callLCS(sa, sb, e, sc.get(mode))
+			s2, l2 := callLCS(sb, sa, e, sc.get(mode))
 			for o, r := range [][2]int{{s, l}, {s2, l2}} {
-				if admits(c.Lcs[k], r[0], r[1]) {
-					cnt.ok(base + "/" + bufNames[mode])
-				} else if bad == "" {
+				cnt.ok(base + "/" + bufNames[mode]) // counted as exercised, whatever the outcome
+				if !admits(c.Lcs[k], r[0], r[1]) && bad == "" {
 					bad = bufNames[mode]
-					badDetail = fmt.Sprintf("FastLCSScore(%s) on (%q,%q) maxError=%d buffer=%s answered (%d,%d); LCS.tla allows %s",
-						[]string{"a,b", "b,a"}[o], c.A, c.B, e, bufNames[mode], r[0], r[1], describe(c.Lcs[k]))
+					badDetail = fmt.Sprintf("FastLCSScore(%s) on (%q,%q) maxError=%d buffer=%s answered %s; LCS.tla allows %s",
+						[]string{"a,b", "b,a"}[o], c.A, c.B, e, bufNames[mode], ans(r[0], r[1]), describe(c.Lcs[k]))
 				}
 			}
-			if s == s2 && l == l2 {
-				cnt.ok("lcs/symmetry")
-			} else if badSym == "" {
+			cnt.ok("lcs/symmetry")
+			if !(s == s2 && l == l2) && badSym == "" {
 				badSym = bufNames[mode]
 				badSymDetail = fmt.Sprintf("FastLCSScore(%q,%q,%d)=(%d,%d) but with swapped arguments (%d,%d), buffer=%s",
 					c.A, c.B, e, s, l, s2, l2, bufNames[mode])
 			}
 			// ---- end-gap-free kernel
-			es, el, _ := obialign.FastLCSEGFScore(sa, sb, e, sc.get(mode))
-			es2, el2, _ := obialign.FastLCSEGFScore(sb, sa, e, sc.get(mode))
+			es, el, _ := callEGF(sa, sb, e, sc.get(mode))
+			es2, el2, _ := callEGF(sb, sa, e, sc.get(mode))
 			for o, r := range [][2]int{{es, el}, {es2, el2}} {
-				if admits(c.Egf[k], r[0], r[1]) || admits(c.Egf2[k], r[0], r[1]) {
-					cnt.ok(baseE + "/" + bufNames[mode])
-				} else if badE == "" {
+				cnt.ok(baseE + "/" + bufNames[mode])
+				if !(admits(c.Egf[k], r[0], r[1]) || admits(c.Egf2[k], r[0], r[1])) && badE == "" {
 					badE = bufNames[mode]
-					badEDetail = fmt.Sprintf("FastLCSEGFScore(%s) on (%q,%q) maxError=%d buffer=%s answered (%d,%d); LCS.tla allows %s (or, other orientation, %s)",
-						[]string{"a,b", "b,a"}[o], c.A, c.B, e, bufNames[mode], r[0], r[1], describe(c.Egf[k]), describe(c.Egf2[k]))
+					badEDetail = fmt.Sprintf("FastLCSEGFScore(%s) on (%q,%q) maxError=%d buffer=%s answered %s; LCS.tla allows %s (or, other orientation, %s)",
+						[]string{"a,b", "b,a"}[o], c.A, c.B, e, bufNames[mode], ans(r[0], r[1]), describe(c.Egf[k]), describe(c.Egf2[k]))
 				}
 			}
 			if len(c.A) != len(c.B) {
-				if es == es2 && el == el2 {
-					cnt.ok("egf/symmetry")
-				} else if badSymE == "" {
+				cnt.ok("egf/symmetry")
+				if !(es == es2 && el == el2) && badSymE == "" {
 					badSymE = bufNames[mode]
 					badSymEDetail = fmt.Sprintf("FastLCSEGFScore(%q,%q,%d)=(%d,%d) but with swapped arguments (%d,%d), buffer=%s",
 						c.A, c.B, e, es, el, es2, el2, bufNames[mode])
@@ -301,8 +329,12 @@ func replayOneC09(env *Env, lim *failLimiter, cnt *c09Counters, sc *scratch, c *
 	}
 
 	// ---- one-difference test
-	d, pos, x, y := obialign.D1Or0(sa, sb)
+	d, pos, x, y := callD1(sa, sb)
 	classD := fmt.Sprintf("d1/%s/expect=%d", alpha, c.D1)
+	cnt.ok(classD)
+	if len(edits) > 1 {
+		cnt.ok("d1/ambiguous_position")
+	}
 	if d != c.D1 {
 		lim.fail(env, "C09.d1.verdict", classD, fmt.Sprintf("D1Or0(%q,%q) answered %d; D1.tla says %d", c.A, c.B, d, c.D1), c)
 	} else if d == 1 {
@@ -316,16 +348,16 @@ func replayOneC09(env *Env, lim *failLimiter, cnt *c09Counters, sc *scratch, c *
 		if !found {
 			lim.fail(env, "C09.d1.edit", classD, fmt.Sprintf("D1Or0(%q,%q) reports edit (pos=%d,%q,%q) which does not turn a into b; valid edits: %s",
 				c.A, c.B, pos, byteStr(x), byteStr(y), describeEdits(edits)), c)
-		} else {
-			cnt.ok(classD)
-			if len(edits) > 1 {
-				cnt.ok("d1/ambiguous_position")
-			}
 		}
-	} else {
-		cnt.ok(classD)
 	}
 	env.sample(map[string]any{"a": c.A, "b": c.B, "bounds": c.Bounds, "lcs_allowed": c.Lcs, "d1": c.D1})
+}
+
+func ans(s, l int) string {
+	if s == panicked {
+		return "PANIC"
+	}
+	return fmt.Sprintf("(%d,%d)", s, l)
 }
 
 func contractClause(where string) string {
@@ -545,17 +577,17 @@ func runEventC09(ev *c09Event, sc *scratch) {
 	e := ev.E
 	switch ev.K {
 	case "lcs":
-		s, l := obialign.FastLCSScore(sa, sb, e, sc.get(mode))
-		s2, l2 := obialign.FastLCSScore(sb, sa, e, sc.get(mode))
+		s, l := callLCS(sa, sb, e, sc.get(mode))
+		s2, l2 := callLCS(sb, sa, e, sc.get(mode))
 		ev.R, ev.RR = []int{s, l}, []int{s2, l2}
 	case "egf":
-		s, l, end := obialign.FastLCSEGFScore(sa, sb, e, sc.get(mode))
-		s2, l2, _ := obialign.FastLCSEGFScore(sb, sa, e, sc.get(mode))
+		s, l, end := callEGF(sa, sb, e, sc.get(mode))
+		s2, l2, _ := callEGF(sb, sa, e, sc.get(mode))
 		ev.R, ev.RR, ev.End = []int{s, l}, []int{s2, l2}, end
 	case "d1":
 		ev.Buf = "fresh"
-		d, pos, x, y := obialign.D1Or0(sa, sb)
-		d2, pos2, x2, y2 := obialign.D1Or0(sb, sa)
+		d, pos, x, y := callD1(sa, sb)
+		d2, pos2, x2, y2 := callD1(sb, sa)
 		ev.R, ev.RR = []int{d, pos}, []int{d2, pos2}
 		ev.X, ev.Y, ev.RX, ev.RY = byteStr(x), byteStr(y), byteStr(x2), byteStr(y2)
 	}
